@@ -88,6 +88,11 @@ CHECKS = {
    note="Trusted: Coq kernel/vm_compute; Model/Chain.v; Python harness. Partial: whether worker pools start on the host, and Trotter error of long non-commuting chains, are outside the model (the former is exercised in child interpreters).",
    technique="Coq proof (lists, Permutation, footprint commutation) + exact structural correspondence + exactness / execution-mode search",
    design="3/C10"),
+ "C11": dict(
+   text="Theorems (Coq): the imaginary-time network is the path sum of Model/PathSum.v with one index per slice; for a Hamiltonian commuting with the coupling it collapses to one path per coupling eigenstate with the product weight (gibbs_commuting, any ring / dimension / number of slices); the sum of the cells depends on the total imaginary time only, not on the number of slices (cells_sum_independent_of_slicing = tiling); repeating compute() is the identity (gibbs_idempotent). Tied to /repo by running TIBaseBackend with integer non-symmetric propagators and coefficients -m ln 2 (all weights exact powers of two) against the executable path-sum model at every slice count — which fixes the orientation of the read-out — and by a search through GibbsTempo: commuting models vs Boltzmann weights shifted by the reorganisation energy (independent quadrature), complex Hermitian Hamiltonians at zero / weak coupling vs exp(-H/T)/Z, normalisation, Hermiticity, positivity, repeated compute().",
+   note="Trusted: Coq kernel/vm_compute; Model/PathSum.v + Glue instantiation; Python harness. Partial: accuracy of the Matsubara quadrature and the zero-coupling limit for non-commuting H are explored (1e-8 at zero coupling), not proved.",
+   technique="Coq proof (sum over paths, tiling) + differential correspondence against an exact integer path-sum model + closed-form search",
+   design="3/C11"),
 }
 
 NOT_YET = {}
